@@ -266,6 +266,19 @@ def ev_unary(op, node, m):
     if op == 'boom':
         return m.clone(vals=[
             lift(lambda v: progs.boom_model(node['m'], node['r'], node['exc'], node['fn'], v), v) for v in m.vals])
+    if op == 'mapc':
+        def comp(v, fns=tuple(node['fns'])):
+            for i in fns:
+                v = progs.f_wrap(i, v)
+            return v
+        return m.clone(vals=[lift(comp, v) for v in m.vals])
+    if op == 'filter_in':
+        allowed = set(node['reprs'])
+        keep = [isinstance(v, Raise) or repr(v) in allowed for v in m.vals]
+        vals = [v for v, k in zip(m.vals, keep) if k]
+        keys = None if m.keys is None else [kk for kk, k in zip(m.keys, keep) if k]
+        return Model(vals, keys, 'no', m.cap_items, m.cap_str, indexable=False, sized=False,
+                     unordered=m.unordered, taint=m.taint)
     if op == 'boomset':
         return m.clone(vals=[lift(lambda v: progs.boomset_model(node['fail'], node['fn'], v), v) for v in m.vals])
     if op == 'predraise':
@@ -309,7 +322,10 @@ def ev_unary(op, node, m):
                 raise Invalid('key-less sort needs keys')
             pos = {k: i for i, k in enumerate(m.keys)}
             return select(m, [pos[k] for k in sorted(m.keys, reverse=rev)])
-        kv = [progs.f_key(node['key'], v) for v in m.vals]
+        if node.get('wrap') is not None:
+            kv = [progs.f_key(node['key'], progs.f_wrap(node['wrap'], v)) for v in m.vals]
+        else:
+            kv = [progs.f_key(node['key'], v) for v in m.vals]
         # the documented recipe: sort (sort value, running index) pairs
         return select(m, sorted(range(m.n), key=lambda i: (kv[i], i), reverse=rev))
     if op == 'shard':
